@@ -68,20 +68,42 @@ def fam_delta(rng):
 
 
 def fam_independent(rng):
-    n = rng.choice([2, 3])
-
+    """Independent over a Delta: point batched over the plate; density in {0, non-zero constant, batched over the
+    plate i, over another input j, over both}; plate sizes 1-3.  Also Independent over lazy / joint terms."""
     def thunk():
+        n = rng.choice([1, 2, 2, 3, 3])
         ins = OrderedDict(i=Bint[n])
-        if rng.random() < 0.5:
-            point = _t(rng, ins)
-            d = Delta("x_i", point, _t(rng, ins if rng.random() < 0.5 else OrderedDict(), kind="int"))
+        jn = OrderedDict(j=Bint[2])
+        both = OrderedDict(i=Bint[n], j=Bint[2])
+        k = rng.randrange(8)
+        if k < 5:
+            point = _t(rng, both if rng.random() < 0.3 else ins)
+            dk = rng.randrange(5)
+            if dk == 0:
+                logd = Number(0.0)
+            elif dk == 1:
+                logd = Number(float(rng.choice([0.25, -1.0, 2.0, 0.5])))
+            elif dk == 2:
+                logd = _t(rng, ins, kind="int")
+            elif dk == 3:
+                logd = _t(rng, jn, kind="int")
+            else:
+                logd = _t(rng, both, kind="int")
+            d = Delta("x_i", point, logd)
+            if k == 4:
+                # joint: Delta + Tensor (eager_independent_joint)
+                return Independent(d + _t(rng, both if rng.random() < 0.5 else ins, kind="int"), "x", "i", "x_i")
             return Independent(d, "x", "i", "x_i")      # eager_independent_delta
         f = _t(rng, ins, kind="int")
         xi = Variable("x_i", Real)
-        if rng.random() < 0.5:
+        if k == 5:
             return Independent(f * xi, "x", "i", "x_i")(x=_t(rng, OrderedDict(), (n,)))
-        g = _t(rng, OrderedDict(i=Bint[n], j=Bint[2]), kind="int")
-        return Independent(g + xi, "x", "i", "x_i")(x_i=Number(1.0), x=_t(rng, OrderedDict(), (n,)))
+        if k == 6:
+            g = _t(rng, both, kind="int")
+            return Independent(g + xi, "x", "i", "x_i")(x=_t(rng, OrderedDict(), (n,)))
+        # eager_independent_trivial: the diagonal variable is absent from fn (reduces to a sum over the plate)
+        g = _t(rng, both, kind="int")
+        return Independent(g, "x", "i", "x_i")
     return thunk
 
 
@@ -316,7 +338,86 @@ def fam_slices(rng):
     return thunk
 
 
+def fam_integrate(rng):
+    from funsor.integrate import Integrate
+    from funsor.testing import random_gaussian
+
+    def thunk():
+        np.random.seed(rng.randrange(2 ** 31))
+        n = rng.choice([2, 3])
+        ins = OrderedDict(i=Bint[n])
+        x = Variable("x", Real)
+        k = rng.randrange(7)
+        if k == 0:
+            d = Delta("x", _t(rng, ins), _t(rng, ins if rng.random() < 0.5 else OrderedDict(), kind="int"))
+            return Integrate(d, x * x + _t(rng, ins, kind="int"), frozenset([x]))        # eager_integrate (Delta)
+        g = random_gaussian(OrderedDict(i=Bint[n], x=Real))
+        if k == 1:
+            return Integrate(g, x, frozenset([x]))                                       # gaussian, variable
+        g2 = random_gaussian(OrderedDict(x=Real) if rng.random() < 0.5 else OrderedDict(i=Bint[n], x=Real))
+        if k == 2:
+            return Integrate(g, g2, frozenset([x]))                                      # gaussian, gaussian
+        if k == 3:
+            return Integrate(g, -g2, frozenset([x]))                                     # gaussian, -gaussian
+        t = _t(rng, ins, kind="gauss")
+        if k == 4:
+            return Integrate(g + t, g2, frozenset([x]))                                  # gaussian mixture
+        if k == 5:
+            return Integrate(g, g2 + _t(rng, ins, kind="gauss"), frozenset([x]))         # distribute over a sum
+        g3 = random_gaussian(OrderedDict(i=Bint[n], x=Real))
+        return Contraction(ops.logaddexp, ops.add, frozenset([x]), g + t, g3 + _t(rng, ins, kind="gauss"))
+    return thunk
+
+
+def fam_scatter(rng):
+    from funsor.terms import Scatter
+
+    def thunk():
+        n = rng.choice([2, 3])
+        k = rng.randrange(4)
+        op = rng.choice([ops.add, ops.add, ops.logaddexp])
+        if k == 0:
+            src = _t(rng, OrderedDict(k=Bint[2]), kind="int")
+            return Scatter(op, (("i", Number(rng.randrange(n), n)),), src, frozenset())
+        if k == 1:
+            src = _t(rng, OrderedDict(a=Bint[n], b=Bint[2]), kind="int")
+            return Scatter(op, (("i", Variable("a", Bint[n])), ("j", Variable("b", Bint[2]))), src,
+                           frozenset([Variable("a", Bint[n]), Variable("b", Bint[2])]))
+        if k == 2:
+            src = _t(rng, OrderedDict(a=Bint[n]), kind="int")
+            return Scatter(op, (("i", Variable("a", Bint[n])), ("j", Variable("a", Bint[n]))), src,
+                           frozenset([Variable("a", Bint[n])]))                           # diagonal
+        return Scatter(op, (("i", Variable("a", Bint[n])),), Number(float(rng.choice([1, 2, -1]))),
+                       frozenset([Variable("a", Bint[n])]))                               # eager_scatter_number
+    return thunk
+
+
+def fam_misc(rng):
+    """eager_approximate, eager_finitary_generic_tensors, eager_subs_subs"""
+    from funsor.terms import Approximate
+
+    def thunk():
+        n = rng.choice([2, 3])
+        ins = OrderedDict(i=Bint[n])
+        k = rng.randrange(1, 4)
+        t = _t(rng, ins, kind="int")
+        if k == 0:
+            # not driven: Approximate alpha-mangles approx_vars although they stay inputs of the term, so the lazy
+            # term has input x__BOUND_n where eager_approximate's result (the model) has x — reported, not gated
+            x = Variable("x", Real)
+            return Approximate(ops.logaddexp, t + x * 2.0, t - x, frozenset([x]))
+        if k == 1:
+            return ops.stack((Number(float(rng.choice([1, 2]))), _t(rng, OrderedDict(), kind="int"), Number(3.0)), 0)
+        with FI.reflect:                           # a Subs that stays lazy, then substituted again
+            inner = (t * Variable("w", Real))(i=Variable("j", Bint[n]))
+        if k == 2:
+            return inner(j=Number(rng.randrange(n), n))
+        return inner(w=_t(rng, OrderedDict(j=Bint[n]), kind="int"), j=Variable("m", Bint[n]))
+    return thunk
+
+
 FAMILIES = OrderedDict([
+    ("integrate", fam_integrate), ("scatter", fam_scatter), ("misc", fam_misc),
     ("slices", fam_slices),
     ("contraction", fam_contraction),
     ("delta", fam_delta), ("independent", fam_independent), ("align", fam_align), ("tuple", fam_tuple),
@@ -324,7 +425,7 @@ FAMILIES = OrderedDict([
     ("gaussian", fam_gaussian), ("markov", fam_markov),
 ])
 
-EXTRA_MODES = ["eager", "normalize>eager", "normalize", "lazy>eager", "reflect>eager", "reflect>normalize", "lazy", "reflect>moment_matching",
+EXTRA_MODES = ["eager", "normalize>eager", "normalize", "moment_matching", "lazy>eager", "reflect>eager", "reflect>normalize", "lazy", "reflect>moment_matching",
                "reflect>optimizer", "reflect>sequential"]
 
 _INTERP = {"eager": FI.eager, "lazy": FI.lazy, "reflect": FI.reflect, "normalize": FI.normalize,
@@ -336,8 +437,13 @@ def build(family, subseed):
     return FAMILIES[family](rng)
 
 
+INEXACT_SENSITIVE = {"gaussian", "integrate"}      # moment_matching approximates Gaussian mixtures: not an exact rewrite
+
+
 def run_extra(rec, family, subseed, mode, prog_id=None):
     import funsor.optimizer as FO
+    if family in INEXACT_SENSITIVE and "moment_matching" in mode:
+        mode = "reflect>eager"
 
     def go():
         thunk = build(family, subseed)          # fresh rng: the same expression under every mode
@@ -387,26 +493,71 @@ def _ground(v):
     return None
 
 
-def funsor_eval_check(refl, res, rng, npoints=5, rtol=1e-6):
+def delta_supports(*terms):
+    """name -> candidate values (ndarrays of the event shape) harvested from the points of Delta terms, so that
+    sample points hit the support of point masses (elsewhere both sides are -inf and nothing is compared)."""
+    out = {}
+    seen = set()
+    stack = [t for t in terms if isinstance(t, Funsor)]
+    while stack and len(seen) < 5000:
+        t = stack.pop()
+        if id(t) in seen:
+            continue
+        seen.add(id(t))
+        if isinstance(t, Delta):
+            for name, (point, _) in t.terms:
+                if isinstance(point, (Tensor, Number)):
+                    data = np.asarray(point.data, dtype=np.float64)
+                    ev = tuple(point.output.shape)
+                    flat = data.reshape((-1,) + ev) if data.ndim > len(ev) else data.reshape((1,) + ev)
+                    out.setdefault((name, ev), []).extend(list(flat[:8]))
+        stack.extend(R.subfunsors(t))
+    return out
+
+
+def funsor_eval_check(refl, res, rng, npoints=6, rtol=1e-6):
     """-> ('same'|'differ'|'declined'|'unsupported', detail).  Both terms are evaluated by funsor itself
     (eager) at sample points of the reflected term's inputs."""
     if isinstance(refl, R.Pseudo) or not isinstance(res, Funsor):
         return "unsupported", "pseudo reflected term"
     decided = 0
-    for _ in range(npoints):
+    supports = delta_supports(refl, res)
+    by_shape = {}
+    for (name, ev), vals in supports.items():
+        by_shape.setdefault(ev, []).extend(vals)
+    for it in range(npoints):
         try:
-            point = {k: _sample_value(rng, d) for k, d in refl.inputs.items()}
+            point = {}
+            for k, d in refl.inputs.items():
+                cands = supports.get((k, tuple(d.shape))) or by_shape.get(tuple(d.shape))
+                if d.dtype == "real" and cands and (it % 3 != 2):
+                    v = np.asarray(cands[rng.randrange(len(cands))], dtype=np.float64)
+                    point[k] = Tensor(v) if v.shape else Number(float(v))
+                else:
+                    point[k] = _sample_value(rng, d)
         except R.OracleUnsupported as e:
             return "unsupported", str(e)
-        try:
+        env = {k: np.asarray(v.data) for k, v in point.items()}
+
+        def value_at(term, is_refl):
+            # independent brute-force semantics first (no funsor rule involved); funsor's own eager evaluation
+            # only where the term is outside py_denote (Gaussians, Integrate, …) — for the reflected term that
+            # re-dispatches through eager rules, possibly the very rule under test (a weaker, cross-rule check)
+            try:
+                return [np.asarray(R.py_denote(term, env), dtype=np.float64)], None
+            except (R.OracleUnsupported, KeyError, TypeError, ValueError, IndexError, AttributeError,
+                    AssertionError, NotImplementedError, ZeroDivisionError):
+                pass
             with FI.eager:
-                a = reinterpret(refl(**point)) if point else reinterpret(refl)
-                b = res(**{k: v for k, v in point.items() if k in res.inputs})
-                b = reinterpret(b)
+                sub = {k: v for k, v in point.items() if k in term.inputs}
+                v = reinterpret(term(**sub)) if sub else reinterpret(term)
+            return _ground(v), v
+        try:
+            ga, a = value_at(refl, True)
+            gb, b = value_at(res, False)
         except (NotImplementedError, AssertionError, ValueError, TypeError, KeyError, IndexError, AttributeError,
                 ZeroDivisionError, RecursionError, np.linalg.LinAlgError) as e:
             return "declined", f"{type(e).__name__}: {str(e)[:80]}"
-        ga, gb = _ground(a), _ground(b)
         if ga is None or gb is None:
             continue
         decided += 1
